@@ -35,6 +35,7 @@ fn main() {
     let ctx = vcommon::ctx::Ctx::from_env(&prop);
     match prop.as_str() {
         "C01" => props::c01::run(ctx),
+        "C06" => props::c06::run(ctx),
         other => {
             eprintln!("harness error: unknown property {other:?}");
             std::process::exit(2);
